@@ -39,7 +39,7 @@ Section C16.
     refund_of (w_gov w') (x_caller c) tok nonce = 0 /\
     (forall u t n, (u, (t, n)) <> (x_caller c, (tok, nonce)) -> refund_of (w_gov w') u t n = refund_of (w_gov w) u t n) /\
     (v = 0 -> w_led w' = w_led w) /\
-    (v <> 0 -> transfer (w_led w) (x_self c) (x_caller c) tok v = Some (w_led w')) /\
+    (v <> 0 -> transfer (w_led w) (x_self c) (x_caller c) (ltok tok nonce) v = Some (w_led w')) /\
     tables w' = tables w.
   Proof. exact gov_withdraw_refund_spec. Qed.
 
